@@ -108,9 +108,10 @@ def with_duplicates(draw):
 
 
 @st.composite
-def near_gap(draw):
-    """A player state choosing between lotteries whose winning chances differ by a small dyadic
-    amount 2^-k (k = 7..16): far above the numerical tolerance, far below a coarse rounding."""
+def near_gap(draw, scale=1.0):
+    """A player state choosing between lotteries whose winning chances differ by a small amount: a
+    dyadic 2^-k (k = 7..17), or 4.5 / 6 / 9 times the solver threshold - just above the numerical
+    tolerance (4 x threshold here) and below half a unit of the next coarser rounding digit."""
     k = draw(st.integers(2, 4))
     base = draw(st.sampled_from((0.25, 0.5, 0.75)))
     owner = draw(st.sampled_from((P1, P2)))
@@ -119,9 +120,12 @@ def near_gap(draw):
     tl = [None, [(1, 1)], [(1, 2)]]
     acts = []
     for i in range(k):
-        e = draw(st.integers(7, 16))
         sign = draw(st.sampled_from((-1, 0, 1)))
-        p = base + sign * 2.0 ** (-e)
+        if draw(st.booleans()):
+            gap = 2.0 ** (-draw(st.integers(7, 17)))
+        else:
+            gap = draw(st.sampled_from((4.5e-6, 6e-6, 9e-6))) * scale
+        p = base + sign * gap
         players.append(PR)
         tl.append([(p, 1), (1 - p, 2)])
         acts.append((games.NAMES[i], 3 + i))
@@ -133,6 +137,9 @@ def near_gap(draw):
 def cases(draw):
     fam = draw(st.sampled_from(("iso", "iso", "dup", "stopping", "any", "any", "near")))
     if fam == "near":
+        if draw(st.booleans()):
+            theta = draw(st.sampled_from((1e-3, 1e-4, 1e-6, 1e-8)))
+            return dict(game=draw(near_gap(scale=theta / 1e-6)), api="solver", theta=theta)
         g = draw(near_gap())
     elif fam == "iso":
         g = draw(isomorphic_tie())
